@@ -153,11 +153,16 @@ func (valdec mapDecoder) decodeObjectAsMap(dec *Decoder, p interface{}, tag byte
 	dec.AddReference(p)
 	if fields := structInfo.fields; fields != nil {
 		for _, name := range structInfo.names {
-			field := fields[name]
-			vp := field.Type.UnsafeNew()
-			field.Decode(dec, field.Type.Type1(), vp)
-			v := field.Type.UnsafeIndirect(vp)
-			valdec.t.UnsafeSetIndex(mp, reflect2.PtrOf(name), reflect2.PtrOf(&v))
+			if field, ok := fields[name]; ok {
+				vp := field.Type.UnsafeNew()
+				field.Decode(dec, field.Type.Type1(), vp)
+				v := field.Type.UnsafeIndirect(vp)
+				valdec.t.UnsafeSetIndex(mp, reflect2.PtrOf(name), reflect2.PtrOf(&v))
+			} else {
+				var v interface{}
+				dec.decodeInterface(dec.NextByte(), &v)
+				valdec.t.UnsafeSetIndex(mp, reflect2.PtrOf(name), reflect2.PtrOf(&v))
+			}
 		}
 	} else {
 		for _, name := range structInfo.names {
